@@ -111,3 +111,69 @@ def sample(lst, n=5):
         return lst
     step = (len(lst) - 1) / (n - 1)
     return [lst[int(round(i * step))] for i in range(n)]
+
+
+def _canon_val(v, depth):
+    if v is None or isinstance(v, (bool, int, str, bytes)):
+        return v if not isinstance(v, (str, bytes)) or len(v) <= 80 else v[:80]
+    if isinstance(v, float):
+        return round(v, 6)
+    if depth <= 0:
+        return "<%s>" % type(v).__name__
+    if isinstance(v, dict):
+        return sorted((str(getattr(k, "__name__", k)), _canon_val(x, depth - 1)) for k, x in v.items())
+    if isinstance(v, (list, tuple)):
+        return [_canon_val(x, depth - 1) for x in v]
+    if isinstance(v, (set, frozenset)):
+        return sorted(map(repr, (_canon_val(x, depth - 1) for x in v)))
+    if hasattr(v, "_fields"):
+        return [type(v).__name__] + [_canon_val(x, depth - 1) for x in v]
+    return "<%s>" % type(v).__name__
+
+
+def residue(obj, known=(), depth=3):
+    """Canonical dump of every attribute of `obj` that is NOT named in `known` (attributes the caller's state key treats
+    by hand) and does not start with `_vf_` (the harness's own tags).  An explorer's state key must separate states with
+    different futures whichever attribute the code under test keeps its memory in: anything the hand-written key does
+    not know about is kept concretely, so a change that introduces new per-object state cannot be merged away."""
+    names = set(getattr(obj, "__dict__", {}))
+    for klass in type(obj).__mro__:
+        names.update(s for s in getattr(klass, "__slots__", ()) if hasattr(obj, s))
+    out = []
+    for nm in sorted(names):
+        if nm in known or nm.startswith("_vf_"):
+            continue
+        out.append((nm, _canon_val(getattr(obj, nm), depth)))
+    return out
+
+
+class ModuleResidue:
+    """Module-level state that differs from what it was when the execution started (scalars and plain containers of the
+    given modules, except the names the caller handles by hand)."""
+
+    def __init__(self, modules, known=()):
+        self.mods = modules
+        self.known = set(known)
+        self.base = {}
+        for m in modules:
+            for k, v in vars(m).items():
+                if k in self.known or k.startswith("__"):
+                    continue
+                if v is None or isinstance(v, (bool, int, float, dict, list, set)):
+                    self.base[(m.__name__, k)] = _canon_val(v, 2)
+
+    def diff(self):
+        out = []
+        for m in self.mods:
+            g = vars(m)
+            for k, v in g.items():
+                if k in self.known or k.startswith("__"):
+                    continue
+                if v is None or isinstance(v, (bool, int, float, dict, list, set)):
+                    b = self.base.get((m.__name__, k), "<absent>")
+                    if v is b:
+                        continue
+                    c = _canon_val(v, 2)
+                    if c != b:
+                        out.append((m.__name__, k, c))
+        return sorted(out, key=repr)
